@@ -30,9 +30,10 @@ Inductive owner := Thr (t : tid) | Ghost.      (* Ghost: a thread of the parent 
 Inductive child_kind := CNone | CUnlock | CReinit | CReinitClear.
 Record handlers := mkHandlers { h_prepare : bool;          (* prepare handler locks the repository mutex *)
                                 h_parent : bool;           (* parent handler unlocks it *)
-                                h_child : child_kind }.    (* what the child handler does *)
-Definition repaired_handlers := mkHandlers true true CReinitClear.
-Definition no_handlers := mkHandlers false false CNone.
+                                h_child : child_kind;      (* what the child handler does *)
+                                h_preinit : bool }.        (* snoopy_tsrm_init already runs when the library is loaded *)
+Definition repaired_handlers := mkHandlers true true CReinitClear false.
+Definition no_handlers := mkHandlers false false CNone false.
 
 Inductive pc :=
 | Out
@@ -202,7 +203,7 @@ Section Model.
     end.
 
   Definition init (progs : tid -> list item) : state :=
-    mkState false None [] 0 (fun _ => Out) progs (fun _ => []) (fun _ => []) (fun _ => []).
+    mkState (h_preinit hs) None [] 0 (fun _ => Out) progs (fun _ => []) (fun _ => []) (fun _ => []).
 
   Inductive reachable (progs : tid -> list item) : state -> Prop :=
   | R_init : reachable progs (init progs)
@@ -219,7 +220,8 @@ Section Model.
     let r1 := match k with CReinitClear => [] | _ => repo s end in
     let c1 := match k with CReinitClear => 0 | _ => cnt s end in
     mkState (inited s) m1 r1 c1 (fun _ => Out) (fun u => if Nat.eqb u t then todo s t else [])
-            (reads s) (counts s) (fun u => if Nat.eqb u t then trace s t else []).
+            (fun u => if Nat.eqb u t then reads s t else []) (fun u => if Nat.eqb u t then counts s t else [])
+            (fun u => if Nat.eqb u t then trace s t else []).
 
   (** reachability across processes: children (and their children, ...) included *)
   Inductive preachable (progs : tid -> list item) : state -> Prop :=
@@ -284,7 +286,7 @@ Definition prog2 : tid -> list item :=
            end.
 Definition demo_sched : list tid :=
   repeat 0 6 ++ repeat 1 6 ++ repeat 0 4 ++ repeat 1 4 ++ repeat 0 3 ++ repeat 1 4 ++ repeat 0 4 ++ repeat 1 3 ++ repeat 0 7 ++ repeat 1 7.
-Definition demo := fst (run_sched repaired_handlers demo_sched (init prog2)).
+Definition demo := fst (run_sched repaired_handlers demo_sched (init repaired_handlers prog2)).
 Example demo_isolated :
   reads demo 0 = [(Cfg, Some 7)] /\ reads demo 1 = [(Cfg, Some 9)] /\ counts demo 0 = [2] /\ counts demo 1 = [2]
   /\ repo demo = [] /\ cnt demo = 0 /\ mtx demo = None /\ pcs demo 0 = Out /\ pcs demo 1 = Out.
